@@ -193,6 +193,98 @@ def _split_top_commas(s):
     return out
 
 
+
+def _recv_start(body, m, k):
+    """start index of the receiver expression (path / method chain, possibly line-broken) that ends just before body[k] == '.'"""
+    j = k
+    while j > 0:
+        ch = body[j - 1]
+        if ch.isalnum() or ch in "_.:&":
+            j -= 1
+        elif ch == "?" :
+            j -= 1
+        elif ch in ")]":
+            d = 0
+            q = j - 1
+            while q >= 0:
+                if m[q]:
+                    if body[q] in ")]":
+                        d += 1
+                    elif body[q] in "([":
+                        d -= 1
+                        if d == 0:
+                            break
+                q -= 1
+            j = q
+        elif ch in " \t\n":
+            t = body[:j].rstrip()
+            nxt = body[j:k + 1].lstrip()
+            if nxt.startswith(".") and t and (t[-1].isalnum() or t[-1] in "_)]?"):
+                j = len(t)
+            else:
+                break
+        else:
+            break
+    # strip a leading '&' that belongs to an enclosing expression? keep: `&x.y.map(..)` is rare
+    while j < k and body[j] in " \t\n":
+        j += 1
+    return j
+
+
+def r_optmap(body, result=False):
+    """Option/Result combinators with a closure literal -> the defining `match` (R-optmap). result=True: receiver is a Result (`.map` / `.and_then` / `.map_err`)."""
+    log = []
+    guard = 0
+    while True:
+        guard += 1
+        if guard > 200:
+            raise Unsupported("R-optmap: did not converge")
+        m = code_mask(body)
+        mo = None
+        for x in re.finditer(r"\.(map|map_or|and_then|ok_or_else|unwrap_or_else|map_err)\(\s*", body):
+            if not m[x.start()]:
+                continue
+            close = match_close(body, m, x.end() - 1 - (len(x.group(0)) - len(x.group(0).rstrip())))
+            args = body[x.end():close]
+            kind = x.group(1)
+            parts = _split_top_commas(args)
+            clos = parts[-1].strip()
+            if not clos.startswith("|"):
+                continue   # not a closure literal (e.g. .map(Self)) -> leave to the verifier
+            if kind == "map_err":
+                continue
+            mo = (x, close, kind, parts, clos)
+            break
+        if mo is None:
+            return body, log
+        x, close, kind, parts, clos = mo
+        cm = re.match(r"\|\s*([^|]*?)\s*\|\s*", clos)
+        pat = cm.group(1).strip()
+        pat = re.sub(r":\s*[^,]+$", "", pat).strip()      # drop a type ascription
+        cbody = clos[cm.end():].strip()
+        j = _recv_start(body, m, x.start())
+        recv = body[j:x.start()].strip()
+        if result and kind == "map":
+            new = "(match %s { Ok(%s) => Ok(%s), Err(e_) => Err(e_) })" % (recv, pat, cbody)
+        elif result and kind == "and_then":
+            new = "(match %s { Ok(%s) => %s, Err(e_) => Err(e_) })" % (recv, pat, cbody)
+        elif result:
+            raise Unsupported("R-optmap(result): %s not handled" % kind)
+        elif kind == "map":
+            new = "(match %s { Some(%s) => Some(%s), None => None })" % (recv, pat, cbody)
+        elif kind == "map_or":
+            d = ",".join(parts[:-1]).strip()
+            new = "(match %s { Some(%s) => %s, None => %s })" % (recv, pat, cbody, d)
+        elif kind == "and_then":
+            new = "(match %s { Some(%s) => %s, None => None })" % (recv, pat, cbody)
+        elif kind == "ok_or_else":
+            new = "(match %s { Some(v_) => Ok(v_), None => Err(%s) })" % (recv, cbody)
+        elif kind == "unwrap_or_else":
+            new = "(match %s { Some(v_) => v_, None => %s })" % (recv, cbody)
+        log.append(("R-optmap", norm_ws(body[j:close + 1])[:200], norm_ws(new)[:240]))
+        body = body[:j] + new + body[close + 1:]
+
+
 def r_tryfold(body):
     """RECV.try_fold(INIT, |ACC, PAT| BODY)  ->  { let mut ACC = INIT; for PAT in RECV { ACC = (BODY)?; } ACC_OK }
     where the whole expression is in tail / `?` position; emitted as a block evaluating to Result: Ok(ACC).
@@ -535,6 +627,12 @@ def emit_fn(f, udir, unit_props, recs, log_global):
             log += l
         if "extend" in rewrites:
             body, l = r_extend(body)
+            log += l
+        if "optmap" in rewrites:
+            body, l = r_optmap(body)
+            log += l
+        if "resmap" in rewrites:
+            body, l = r_optmap(body, result=True)
             log += l
         if "tryfold" in rewrites:
             body, l = r_tryfold(body)
